@@ -532,6 +532,7 @@ func (ex *Exec) havocRegion(st *State, a *Term) {
 	}
 	if rg := Rg(a); rg.IsConst() {
 		delete(st.mapKeys, rg.Val.Int64())
+		st.markOpaque(rg.Val.Int64())
 	}
 }
 
@@ -551,7 +552,19 @@ func (ex *Exec) havocRange(st *State, et types.Type, s *SliceV) {
 		return
 	}
 	if kindOf(et) != KScalar {
-		panic(abortPath{"havoc of symbolic-length range of composite elements"})
+		// composite elements, symbolic length: over-approximate by havocking the whole region of the
+		// slice for the scalar sorts the element type contains (sound: more is forgotten than written)
+		sorts := map[Sort]bool{}
+		forEachLeaf(et, s.ElemAddr(BVc(0, 64)), func(srt Sort, a *Term) { sorts[srt] = true })
+		for srt := range sorts {
+			oldArr := st.mem.arr(srt, st.memGen)
+			newArr := FreshVar("mem_r", oldArr.Sort)
+			st.mem.arrs[srt] = newArr
+			RegisterArrayFrame(newArr, oldArr, Rg(s.Base))
+			b := BoundVar("a$r", SAddr)
+			st.Assume(ForallPat([]*Term{b}, Implies(Not(Eq(Rg(b), Rg(s.Base))), Eq(mk("select", srt, newArr, b), mk("select", srt, oldArr, b))), mk("select", srt, newArr, b)))
+		}
+		return
 	}
 	srt := scalarSort(et)
 	oldArr := st.mem.arr(srt, st.memGen)
